@@ -87,6 +87,9 @@ func checkC01(c *Ctx) {
 	c.checkDataRecursion(br)
 	c.checkNilArguments(br)
 	c.checkNilReflectTypes(br)
+	c.checkNilPaths(br)
+	c.checkReflectUse(br)
+	c.checkPrototypes(br)
 
 	// ---- C01-TA
 	for _, f := range c.zygoFuncs() {
